@@ -73,6 +73,8 @@ fn main() {
         "corpus" => cmd_corpus(&m),
         "script" => script::cmd_script(&m),
         "debug-valid" => debug_valid(&args[2]),
+        "emit-crate" => cmd_emit_crate(&m),
+        "cross-check" => cmd_cross_check(&m),
         other => harness_error(&format!("unknown subcommand {other}")),
     }
 }
@@ -353,4 +355,144 @@ pub fn debug_valid(s: &str) {
         }
         Err(e) => println!("parse err {e}"),
     }
+}
+
+/// Writes one Rust source file containing `n` inputs (corpus, directed, generated), each in a
+/// module of its own, for the real-host engine R. With --ok-only only inputs whose native
+/// expansion produced impls and no error are kept. A side file lists, per module, the request
+/// and the native output digest.
+fn cmd_emit_crate(m: &BTreeMap<String, String>) {
+    let corpus = load_corpus(m);
+    let dir = directed::directed();
+    let pool = gen::Pool {
+        corpus: &corpus,
+        directed: &dir,
+    };
+    let root = get(m, "root", DEFAULT_SEED);
+    let from: u64 = get(m, "from", 0);
+    let n: u64 = get(m, "n", 1000);
+    let ok_only = m.contains_key("ok-only");
+    let with_pool = m.contains_key("with-pool");
+    let no_user_ce = m.contains_key("no-user-compile-error");
+    let out: PathBuf = get(m, "out", PathBuf::from("crate.rs"));
+    let mut reqs: Vec<req::Request> = Vec::new();
+    if with_pool {
+        reqs.extend(corpus.entries.iter().map(|e| e.req.clone()));
+        reqs.extend(dir.iter().cloned());
+    }
+    for i in from..from + n {
+        reqs.push(gen::gen_input(root, i, &pool).0);
+    }
+    let mut seen = std::collections::BTreeSet::new();
+    let mut src = String::from("#![allow(warnings)]\n");
+    let mut index = Vec::new();
+    let mut k = 0usize;
+    for r in reqs {
+        if !seen.insert(r.id()) {
+            continue;
+        }
+        if no_user_ce && r.item.contains("compile_error") {
+            continue;
+        }
+        let obs = exec::expand_and_observe(&r);
+        if ok_only && !(obs.outcome == exec::Outcome::Ok && obs.errors.is_empty() && obs.n_impls > 0) {
+            continue;
+        }
+        // user macros / inner modules cannot be resolved in the generated crate
+        if ok_only && (r.item.contains('!') || r.attr.contains('!') || !only_plain_attrs(&r)) {
+            continue;
+        }
+        let body = match r.mode {
+            req::Mode::Attr => format!("#[derive_ex({})]\n{}", r.attr, r.item),
+            req::Mode::Derive => format!("#[derive(Ex)]\n{}", r.item),
+        };
+        src.push_str(&format!("mod m{k} {{\nuse ::derive_ex::{{derive_ex, Ex}};\n{body}\n}}\n"));
+        index.push(serde_json::json!({"module": format!("m{k}"), "req": r, "digest": obs.digest,
+            "outcome": format!("{:?}", obs.outcome), "errors": obs.errors.len(), "text": obs.text}));
+        k += 1;
+    }
+    std::fs::write(&out, src).unwrap_or_else(|e| harness_error(&format!("{}: {e}", out.display())));
+    let idx = out.with_extension("index.json");
+    std::fs::write(&idx, serde_json::to_string(&index).unwrap()).unwrap_or_else(|e| harness_error(&format!("{e}")));
+    println!("emit-crate: {k} modules -> {}", out.display());
+}
+
+/// True if every attribute in the item is one of derive-ex's own or a harmless inert one, so
+/// that a real compiler can expand the item without tripping over unrelated attributes.
+fn only_plain_attrs(r: &req::Request) -> bool {
+    use syn::visit::Visit;
+    struct V(bool);
+    impl<'a> Visit<'a> for V {
+        fn visit_attribute(&mut self, a: &'a syn::Attribute) {
+            let ok = ["derive_ex", "ord", "partial_ord", "eq", "partial_eq", "hash", "debug", "default", "doc", "allow"]
+                .iter()
+                .any(|n| a.path().is_ident(n));
+            if !ok {
+                self.0 = false;
+            }
+        }
+    }
+    let Some(ts) = req::lex(&r.item) else {
+        return false;
+    };
+    let Ok(item) = syn::parse2::<syn::Item>(ts) else {
+        return false;
+    };
+    let mut v = V(true);
+    v.visit_item(&item);
+    v.0
+}
+
+/// Compares the real host's pretty-printed expansion of every module with engine N's output
+/// for the same request (spacing-insensitive token comparison). Informational.
+fn cmd_cross_check(m: &BTreeMap<String, String>) {
+    use quote::ToTokens;
+    let exp: String = get(m, "expanded", String::new());
+    let idx: String = get(m, "index", String::new());
+    let text = std::fs::read_to_string(&exp).unwrap_or_else(|e| harness_error(&format!("{exp}: {e}")));
+    let index: Vec<serde_json::Value> = serde_json::from_str(
+        &std::fs::read_to_string(&idx).unwrap_or_else(|e| harness_error(&format!("{idx}: {e}"))),
+    )
+    .unwrap_or_else(|e| harness_error(&format!("{idx}: {e}")));
+    let file = match syn::parse_file(&text) {
+        Ok(f) => f,
+        Err(e) => {
+            println!("cross-check: 0 of 0 (expanded text does not parse: {e})");
+            return;
+        }
+    };
+    let mut mods: BTreeMap<String, String> = BTreeMap::new();
+    for it in file.items {
+        if let syn::Item::Mod(md) = it {
+            if let Some((_, items)) = md.content {
+                let mut ts = proc_macro2::TokenStream::new();
+                for i in items.iter().skip(1) {
+                    // skip the `use ::derive_ex::{..}` line
+                    i.to_tokens(&mut ts);
+                }
+                mods.insert(md.ident.to_string(), req::canon_loose(&ts));
+            }
+        }
+    }
+    let mut same = 0;
+    let mut total = 0;
+    let verbose = m.contains_key("verbose");
+    for e in &index {
+        let (Some(name), Some(native)) = (e["module"].as_str(), e["text"].as_str()) else {
+            continue;
+        };
+        let Some(real) = mods.get(name) else {
+            continue;
+        };
+        let Some(nts) = req::lex(native) else {
+            continue;
+        };
+        total += 1;
+        if req::canon_loose(&nts) == *real {
+            same += 1;
+        } else if verbose {
+            println!("differs: {name}\n  N: {native}\n  R: {}", real.replace('\u{1f}', " "));
+        }
+    }
+    println!("cross-check: {same} of {total} modules token-identical between the real host and engine N");
 }
